@@ -7,7 +7,7 @@ sys.path.insert(0, os.path.join(V, "tools"))
 import mkmanifest, mkdesign_tables
 
 MODELS = {
-    "C01": ("Model/Hap.v, Model/Spec.v, Model/Sessions.v (the session table and its key); Proofs/HapProofs.v, SessionsProofs.v", "stack (incl. the shared-address runs NS / NSI)"), "C02": ("Model/Hap.v; Proofs/HapProofs.v", "stack"),
+    "C01": ("Model/Hap.v, Model/Spec.v, Model/Sessions.v (the session table and its key); Proofs/HapProofs.v, SessionsProofs.v", "stack (incl. the shared-address runs NS / NSI) + sess"), "C02": ("Model/Hap.v; Proofs/HapProofs.v", "stack"),
     "C03": ("Model/Hap.v; Proofs/HapProofs.v", "stack"), "C04": ("Model/Hap.v, Model/Spec.v, Model/Framing.v, Model/Srp.v; Proofs/HapProofs.v, SpecProofs.v, FramingProofs.v, SrpProofs.v (and SrpFast.v for the evaluation of the SRP model)", "stack + srp + config"),
     "C05": ("Model/Framing.v, Model/ConnRead.v, Model/Pipeline.v (requests buffered across the switch to the secure session), Base/ChaCha20Poly1305 + HKDF-SHA-512; Proofs/FramingProofs.v, ConnAdvProofs.v, PipelineProofs.v, Base/ChaChaPolyProofs.v", "frame + conn + stack (VR, INJ)"),
     "C06": ("Model/Framing.v; Proofs/FramingProofs.v", "frame"), "C07": ("Model/ConnRead.v; Proofs/ConnReadProofs.v", "conn"),
